@@ -164,11 +164,33 @@ class Check(CheckBase):
             repo = await rep.unlocked(ref_be, key, concurrent=1)
             with rep.capture():
                 return key, await repo.snapshot(paths=[Path(src)])
-        try:
-            key, ref_res = asyncio.run(reference())
-        except Exception as e:
-            return {'verdict': 'inconclusive', 'note': f'reference run failed: {type(e).__name__}: {e}', 'classes': [],
+        # the reference run is watched too: a command that cannot finish even sequentially is a violation, not a
+        # reason for the harness to hang
+        box = {}
+
+        def ref_runner():
+            try:
+                box['res'] = asyncio.run(reference())
+            except BaseException as e:
+                box['err'] = e
+        th = threading.Thread(target=ref_runner, daemon=True, name='vf-ref')
+        th.start()
+        state, stacks = sched.wait_or_deadlock(th, lambda: (ref_store.calls, len(ref_store.log)), hard_timeout=60, quiet=6.0)
+        if state != 'done':
+            if state == 'deadlock':
+                return {'verdict': 'violated', 'classes': [], 'counters': counters, '_recycle': True,
+                        'violations': [{'what': 'the sequential reference snapshot (N=1, no perturbation) never finishes: every thread '
+                                                'is parked or spinning and no backend call happens', 'mechanism': None,
+                                        'witness': {'stacks': _trim(stacks), 'shape': case['shape'], 'settings': case['settings']}}]}
+            # no backend call for 60 s although threads are running: a spinning producer/consumer pair
+            return {'verdict': 'violated', 'classes': [], 'counters': counters, '_recycle': True,
+                    'violations': [{'what': 'the sequential reference snapshot (N=1, no perturbation) does not finish within 60 s of '
+                                            'which the last ones passed without a single backend call', 'mechanism': None,
+                                    'witness': {'stacks': _trim(stacks), 'shape': case['shape']}}]}
+        if 'err' in box:
+            return {'verdict': 'inconclusive', 'note': f'reference run failed: {type(box["err"]).__name__}: {box["err"]}', 'classes': [],
                     'counters': counters}
+        key, ref_res = box['res']
         ref_manifest = self._manifest(ref_res)
 
         # -- perturbed runs on a fresh store that shares config (same keys => same names/digests) ---------
@@ -270,7 +292,10 @@ class Check(CheckBase):
             th = threading.Thread(target=runner, daemon=True, name='vf-op')
             th.start()
             state, stacks = sched.wait_or_deadlock(th, lambda: (pert.events, store.calls, len(store.log)),
-                                                   hard_timeout=120)
+                                                   hard_timeout=120, work=lambda: (store.calls, len(store.log)),
+                                                   recent_lines=pert.recent_lines)
+            if state == 'livelock':
+                state = 'deadlock'
             return state, stacks, box.get('error')
 
         pert.install()
@@ -281,7 +306,8 @@ class Check(CheckBase):
             state, stacks, err = run_threaded(op_snapshot, fail_snap)
             counters['executions'] += 1
             if state == 'deadlock':
-                viol('snapshot never finishes: every thread is parked and nothing moves', stacks=_trim(stacks))
+                viol('snapshot never finishes: ' + ('a polling loop spins without any backend call for 8 s' if 'spinning_on' in stacks
+                                                    else 'every thread is parked and nothing moves'), stacks=_trim(stacks))
                 recycle = True
             elif state == 'watchdog':
                 return {'verdict': 'inconclusive', 'note': 'watchdog during snapshot', 'classes': [], 'counters': counters,
@@ -321,7 +347,8 @@ class Check(CheckBase):
                 state, stacks, err = run_threaded(op_restore, fail_res, target)
                 counters['executions'] += 1
                 if state == 'deadlock':
-                    viol('restore never finishes: every thread is parked and nothing moves', stacks=_trim(stacks))
+                    viol('restore never finishes: ' + ('a polling loop spins without any backend call for 8 s' if 'spinning_on' in stacks
+                                                       else 'every thread is parked and nothing moves'), stacks=_trim(stacks))
                     recycle = True
                 elif state == 'watchdog':
                     return {'verdict': 'inconclusive', 'note': 'watchdog during restore', 'classes': [],
@@ -419,7 +446,7 @@ def _task_chains():
 
 
 def _trim(stacks):
-    return {k: v[:7] for k, v in list(stacks.items())[:10]}
+    return {k: v[:12 if k == 'spinning_on' else 7] for k, v in list(stacks.items())[:11]}
 
 
 def _tb(e):
